@@ -28,6 +28,8 @@ def levels(tier):
              "defaults": ["never"], "pool": WIDE},
             {"name": "clear-n2", "n": 2, "prelude": [["we", [[0, 3]]], ["we", [[1, 4]]], ["clear"]], "alphabet": ["we", "addprefix"],
              "defaults": ["never"], "pool": POOL[:2]},
+            {"name": "schemes-n1", "n": 1, "prelude": [["we", [[0, 1]]], ["we", [[1, 3]]]], "alphabet": ["we", "page", "addprefix"],
+             "defaults": ["never"], "pool": [{"hosts": 2}, {"hosts": 2, "scheme": "https"}, {"extend": 0, "paths": 1}]},
             {"name": "chain-n1", "n": 1, "prelude": [["we", [[0, 1]]], ["we", [[0, 2], [0, 3]]]], "alphabet": ["we", "addprefix", "page"],
              "defaults": ["never"], "pool": POOL[:3]},
         ]
